@@ -42,6 +42,7 @@ func concFiles() map[string]string {
 		"assignint.tw":       "{{ v = 1 }}{{ w = [1, 2] }}int {{ v.pause() }}",
 		"assignstr.tw":       "{{ v = \"s\" }}{{ w = 2.5 }}str {{ v }}",
 		"readv.tw":           "read {{ v }}",
+		"floatdec.tw":        "@for(f = price; f > 1.0; f--)[{{ f }}]@end {{ price-- }} {{ price++ }} {{ price }} @each(p in [price, price - 1.0]){{ p-- }}{{ p.pause2() }},@end",
 		"assignlayout.tw":    "@use(\"~main\")@insert(\"title\", \"T\")@insert(\"body\"){{ v = true }}{{ v }}@end",
 	}
 }
@@ -141,6 +142,31 @@ func concOps() []concOp {
 			}
 			return "fresh names rendered as expected"
 		}},
+		// postfix operators on floats
+		{"String(floatdec)", false, str("floatdec")},
+		// inline pages of several KiB, different for every goroutine, one of them failing at its end
+		{"EvaluateString(big page)", false, func(tpl *textwire.Template, data map[string]any, abs string) string {
+			who := fmt.Sprint(data["who"])
+			src := "<ul>\n" + strings.Repeat("<li>row of "+who+" {{ gid }}</li>\n", 90) + "</ul>{{ who }}@each(i in items){{ i }},@end"
+			out, err := textwire.EvaluateString(src, data)
+			return fmt.Sprintf("out=%s err=%v", out, err)
+		}},
+		{"EvaluateString(big failing page)", false, func(tpl *textwire.Template, data map[string]any, abs string) string {
+			who := fmt.Sprint(data["who"])
+			src := strings.Repeat("<p>"+who+"</p>\n", 400) + "{{ who.nofn"+who+"() }}"
+			out, err := textwire.EvaluateString(src, data)
+			return fmt.Sprintf("out=%s err=%v", out, err)
+		}},
+		// the source of a component (slot placeholders, named and default) given to the string API and to the file API
+		{"EvaluateString(component source)", false, func(tpl *textwire.Template, data map[string]any, abs string) string {
+			out, err := textwire.EvaluateString("<card {{ who }}>@slot(\"head\")|@slot|@if(gid)@slot(\"foot\")@end</card>", data)
+			return fmt.Sprintf("out=%s err=%v", out, err)
+		}},
+		{"EvaluateFile(component file)", false, func(tpl *textwire.Template, data map[string]any, abs string) string {
+			d := map[string]any{"t": data["who"], "g": data["gid"]}
+			out, err := textwire.EvaluateFile(filepath.Join(filepath.Dir(abs), "components", "card.tw"), d)
+			return fmt.Sprintf("out=%s err=%v", out, err)
+		}},
 		{"EvaluateFile(plain)", false, func(tpl *textwire.Template, data map[string]any, abs string) string {
 			out, err := textwire.EvaluateFile(abs, data)
 			return fmt.Sprintf("out=%s err=%v", out, err)
@@ -198,6 +224,12 @@ func init() {
 					time.Sleep(50 * time.Microsecond)
 				}
 				return i
+			})
+			textwire.RegisterFloatFunc("pause2", func(f float64, args ...any) float64 {
+				if int(f)%2 == 0 {
+					runtime.Gosched()
+				}
+				return f
 			})
 			if err := writeFiles("conc", concFiles()); err != nil {
 				panic(err)
@@ -260,7 +292,7 @@ func init() {
 					// every goroutine brings pointers of its own (to structs, chained)
 					plan := &concPlan{Name: fmt.Sprintf("plan%d", g), Seats: g}
 					acct := &concAccount{Owner: fmt.Sprintf("owner%d", g), Plan: plan, Next: &concAccount{Owner: "next", Plan: plan}}
-					return map[string]any{"gid": g, "who": fmt.Sprintf("g%d", g), "items": items, "zero": 0, "acct": acct}
+					return map[string]any{"gid": g, "who": fmt.Sprintf("g%d", g), "items": items, "zero": 0, "acct": acct, "price": float64(g%9) + 3.125}
 				}
 				base := make([][]string, cfg.g)
 				for g := 0; g < cfg.g; g++ {
